@@ -291,6 +291,23 @@ def run(repo: Repo, rep: Report, tier: str) -> None:
                       f"entry {e8[:60]}" if ok8 else f"type `{a8[:60]}` is resolved against the entry `{e8[:60]}` of a different node", f8.loc(call8))
     rep.floor("C13-R8", "resolve_signal_name calls with an entry", n8, 5)
 
+    # ---------------- R9 ---------------------------------------------------------------
+    rep.rule("C13-R9", "a variable's name is not its signal: in _resolve_signal_identity the candidates tried against the game's signal table come from types (the declared type of a "
+             "literal, the node's signal type); the label — the variable name — is tried at most when no type is known, otherwise `Signal coal = 5;` is emitted on the item "
+             "signal coal and renaming the variable changes the circuit")
+    rsi = repo.func("SignalAnalyzer._resolve_signal_identity")
+    crsi = __import__("fv.rules.util", fromlist=["canon"]).canon(rsi)
+    from .util import cguards as _cg9
+    apps9 = [c for c in calls_in(rsi.node, "append") if c.args and crsi.text(c.args[0]).endswith(".debug_label")]
+    for c9 in apps9:
+        gs9 = _cg9(rsi, _stmt(parents_map(rsi.node), c9))
+        # allowed: under a guard that says no typed candidate exists (`not candidates` / `not entry.signal_type` ...)
+        ok9 = any((not pol) and (g in ("candidates", "ANY([], AUG([ELEM(...)]))") or g.endswith(".signal_type") or g == crsi.text(c9.func.value)) for g, pol in gs9)
+        rep.check(ok9, "C13-R9", "_resolve_signal_identity: the label is a candidate only when no type is known", "guarded by the absence of typed candidates" if ok9 else
+                  f"appended under {[('' if p else 'not ') + g[:50] for g, p in gs9]}: an untyped value whose variable is called like a game signal (coal, water, stone, wood) is put on that signal", rsi.loc(c9))
+    if not apps9:
+        rep.ok("C13-R9", "_resolve_signal_identity: the label is a candidate only when no type is known", "the label is never a candidate", rsi.loc())
+
 
 
 def CFG_dom(f, a, b) -> bool:
